@@ -264,9 +264,18 @@ bool BandedLU::factor(const std::vector<SparseRow>& rows)
     ld = 2 * kl + ku + 1;
     ab.assign((size_t)ld * n, 0.0L);
     auto A = [&](int i, int j) -> long double& { return ab[(size_t)j * ld + (kl + ku + i - j)]; };
-    for (int i = 0; i < n; i++)
+    rscale.assign(n, 1.0L);
+    for (int i = 0; i < n; i++) {
+        double mx = 0;
+        for (double v : rows[i].val)
+            mx = std::max(mx, std::fabs(v));
+        int e = 0;
+        if (mx > 0 && std::isfinite(mx))
+            std::frexp(mx, &e);
+        rscale[i] = std::ldexp(1.0L, -e); // identity rows of Dirichlet nodes next to rows of size 1e12 (other units)
         for (size_t q = 0; q < rows[i].col.size(); q++)
-            A(i, rows[i].col[q]) += rows[i].val[q];
+            A(i, rows[i].col[q]) += (long double)rows[i].val[q] * rscale[i];
+    }
     piv.assign(n, 0);
     for (int j = 0; j < n; j++) {
         int last = std::min(n - 1, j + kl);
@@ -301,6 +310,8 @@ bool BandedLU::factor(const std::vector<SparseRow>& rows)
 void BandedLU::solve(std::vector<long double>& b) const
 {
     auto A = [&](int i, int j) -> long double { return ab[(size_t)j * ld + (kl + ku + i - j)]; };
+    for (int i = 0; i < n; i++)
+        b[i] *= rscale[i];
     for (int j = 0; j < n; j++) {
         if (piv[j] != j)
             std::swap(b[j], b[piv[j]]);
